@@ -4,7 +4,13 @@
 set -u
 c=$1; tier=${2:-quick}
 base=/tmp/isocheck.$$; rm -rf $base; mkdir -p $base
-rsync -a --exclude build --exclude replays --exclude .git ${ISO_EXCLUDE:+--exclude $ISO_EXCLUDE} /verif/ $base/verif/
+if [ -n "${ISO_OVERLAY:-}" ]; then
+  # the committed tree plus the named working-tree files (so that other people's uncommitted edits do not interfere)
+  mkdir -p $base/verif; git -C /verif archive HEAD | tar -x -C $base/verif
+  for f in $ISO_OVERLAY; do mkdir -p $base/verif/$(dirname $f); cp /verif/$f $base/verif/$f; done
+else
+  rsync -a --exclude build --exclude replays --exclude .git ${ISO_EXCLUDE:+--exclude $ISO_EXCLUDE} /verif/ $base/verif/
+fi
 ( cd $base/verif && timeout ${ISO_TIMEOUT:-1800} ./check $c $tier ); rc=$?
 rm -rf $base
 exit $rc
